@@ -317,7 +317,15 @@ func checkFilterChains(l *listener.Listener, add func(check, rtype, class, resou
 			}
 		}
 		for _, leaf := range expandMatch(m) {
-			if j, ok := owner[leaf]; ok && j != i {
+			if j, ok := owner[leaf]; ok && j == i {
+				// a repeated value inside one match puts the chain twice on the same branch, which
+				// Envoy reports as overlapping rules as well
+				if !reported[[2]int{i, i}] {
+					reported[[2]int{i, i}] = true
+					add("duplicate-filter-chain-match", "LDS", "repeated-value", l.GetName(),
+						fmt.Sprintf("filter chain #%d %q lists the combination {%s} twice", i, fc.GetName(), leaf))
+				}
+			} else if ok {
 				if !reported[[2]int{j, i}] {
 					reported[[2]int{j, i}] = true
 					cls := "overlapping"
